@@ -30,7 +30,7 @@ From RM Require Import Model.EncTimingSpec Proofs.ControlPointsFacts Proofs.EncT
   Proofs.TimingPointsValues.
 From RM Require Import Proofs.Enc2Values Proofs.Enc2Samples Proofs.Enc2Float Proofs.Enc2Timing Proofs.Enc2Slider Proofs.Enc2Examples.
 From RM Require Proofs.Enc2SvReal.
-From RM Require Import Proofs.Enc2SvRT.
+From RM Require Import Proofs.Enc2SvRT Proofs.Enc2Framing.
 From Coq Require Reals.
 From RM Require Model.Curve.
 From RM Require Import Model.DrvEnc Proofs.EncMapImage.
@@ -65,6 +65,54 @@ Proof.
   exact (decoded_sections_read_back f64 f32 fi Hfmt dist lines m Hl H Hd).
 Qed.
 Print Assumptions C02_simple_sections_round_trip.
+
+(* T02a composed with the framing theorem (C05 T05a: decode = route lines to section parsers) and
+   the projection theorems (C07): ONE statement about decoding the lines of an encoding.  For every
+   decoded map m outside D23, every line list ls the encoder produces for it, every formatting
+   function satisfying [fmt_ok] and whatever the curve function of the second decode: if the
+   second decode succeeds, its format version, general, editor, metadata, difficulty, events
+   (background, breaks) and colour sections are those of [read_back m].  (The lines are the
+   decoder's line list `map render ls`; the byte / text layer is C08 / C10.) *)
+Theorem C02_decode_of_encoding_simple_sections :
+  forall fmt_f64 fmt_f32 fmt_int, fmt_ok fmt_f64 fmt_f32 fmt_int ->
+  forall dist events lines m ls dist2 m2,
+  Forall no_lf_line lines -> decode_beatmap dist lines = Done m -> d23_class m = false ->
+  encode_lines dist events m = Done ls ->
+  decode_beatmap dist2 (map (render fmt_f64 fmt_f32 fmt_int) ls) = Done m2 ->
+  bmv_version m2 = bmv_version m /\
+  hov_general (bmv_ho m2) = hov_general (bmv_ho (read_back m)) /\
+  bmv_editor m2 = bmv_editor (read_back m) /\
+  bmv_metadata m2 = bmv_metadata (read_back m) /\
+  hov_difficulty (bmv_ho m2) = hov_difficulty (bmv_ho (read_back m)) /\
+  hov_events (bmv_ho m2) = hov_events (bmv_ho (read_back m)) /\
+  bmv_colors m2 = bmv_colors (read_back m).
+Proof.
+  intros f64 f32 fi Hfmt dist events lines m ls dist2 m2 Hl Hd H23 He Hd2.
+  exact (decoded_encoding_simple_sections f64 f32 fi Hfmt dist events lines m ls dist2 m2 Hl Hd H23 He Hd2).
+Qed.
+Print Assumptions C02_decode_of_encoding_simple_sections.
+
+(* how the framing specification routes the lines of an encoding: the version line gives the
+   version, each body line goes to the parser of its section, nothing else is routed *)
+Theorem C02_encoding_is_routed :
+  forall fmt_f64 fmt_f32 fmt_int, fmt_ok fmt_f64 fmt_f32 fmt_int ->
+  forall dist events m ls,
+  encode_lines dist events m = Done ls -> i32_ok (bmv_version m) = true -> colors_ok (bmv_colors m) = true ->
+  exists tp ho,
+    let h := bmv_ho m in
+    let rl := render fmt_f64 fmt_f32 fmt_int in
+    version_of (map rl ls) = bmv_version m /\
+    route should_skip_line None (body_of (map rl ls)) =
+      tag SecGeneral (map rl (body (enc_general (hov_general h) (hov_control_points h)))) ++
+      tag SecEditor (map rl (body (enc_editor (bmv_editor m)))) ++
+      tag SecMetadata (map rl (body (enc_metadata (bmv_metadata m)))) ++
+      tag SecDifficulty (map rl (body (enc_difficulty (hov_difficulty h)))) ++
+      tag SecEvents (map rl (body (enc_events (hov_events h)))) ++
+      tag SecTimingPoints (map rl tp) ++
+      tag SecColors (map rl (body (enc_colors (bmv_colors m)))) ++
+      tag SecHitObjects (map rl ho).
+Proof. intros f64 f32 fi Hfmt dist events m ls H Hv Hc. exact (route_encoding f64 f32 fi Hfmt dist events m ls H Hv Hc). Qed.
+Print Assumptions C02_encoding_is_routed.
 
 (* what [read_back] keeps: positive ids and offsets, the special style in mania *)
 Theorem C02_read_back_keeps_positive_ids :
@@ -738,8 +786,9 @@ Proof. exact sliders_example. Qed.
      (C02_slider_velocity_round_trip).  Hypotheses: [slider_ok] (outside D13 / D17 / consecutive
      Catmull / D21, representable samples: outside D30) and the parser state's mode (class D22 on
      the original input).  Not stated: node SAMPLE names/banks of the re-read slider (file names on
-     nodes are lost: new class D31), and the composition of the per-line / per-section results
-     with the framing theorem into one statement about decode (render (encode m)).
+     nodes are lost: new class D31), and the composition of the [TimingPoints] / [HitObjects]
+     per-section results with the framing theorem (done for the simple sections:
+     C02_decode_of_encoding_simple_sections, C02_encoding_is_routed).
 
    Everything above is also covered by the bit-exact `enc` correspondence (decode + encode model
    against the crate, slider files included) and by the C02 oracle, which compares exactly the
